@@ -188,6 +188,7 @@ pub fn property(_ctx: &Ctx) -> Property {
         subs: vec![
             sub::<Case, _, _>("history", 9600, 200000, |c| (program_strategy(HISTORY, if c.thorough() { 120 } else { 40 }, if c.thorough() { 5 } else { 3 }, 4), any::<u64>()), check),
             sub::<Case, _, _>("conflict", 6400, 100000, |c| (program_strategy(CONFLICT, if c.thorough() { 100 } else { 40 }, 4, 4), any::<u64>()), check),
+            sub::<Case, _, _>("counters", 4800, 100000, |c| (program_strategy(COUNTER, if c.thorough() { 100 } else { 40 }, 4, 4), any::<u64>()), check),
         ],
     }
 }
